@@ -9,6 +9,7 @@ import DesyncModel.Setters
 import DesyncModel.Inv.Holder
 import DesyncModel.Inv.SigReach
 import DesyncModel.Inv.DrainReach
+import DesyncModel.Inv.ResReach
 
 namespace Desync.C07
 open Desync Gen
@@ -151,5 +152,16 @@ theorem dropping_designated_poller_releases_queue {s s' : State} (hr : Reachable
   subst hq
   have := dropped_poller_hands_back s s' a f k act o fu v ha hc hpc hf hv hd hst hstep
   exact ⟨this.1, this.2.1⟩
+
+/-- **The future never resolves to `Ok` before its operation has finished** ("never before that operation has finished"), in every
+reachable state: while the result slot of a future holds `Ok`, there is a job whose completion future it is and which has
+ended — `future_desync`, `after`, the slot job of `future_sync`, the completion of a suspend request — or it is the
+`finished_suspending` future of a suspend job that has begun (C13).  (`ResInv`: the slot is written `Ok` only by the signal
+step, which marks the job ended in the same critical section, and by the suspend job's hand-over step; `Ok` is never
+written anywhere else; jobs never lose `ended` / `begun` — inductive over all program counters and environment steps.) -/
+theorem resolves_only_after_the_operation_finished {s : State} (hr : Reachable s) {r : Nat} {fu : Fut} (hf : s.futs[r]? = some fu)
+    (hok : fu.res = .ok) : ∃ (j : Nat) (jb : Job), s.jobs[j]? = some jb ∧
+      ((jb.kind.res = some r ∧ jb.ended = true) ∨ (∃ op g r', jb.kind = .susp op g r r' ∧ jb.begun = true)) :=
+  (resInv_reachable hr).ok r fu hf hok
 
 end Desync.C07
